@@ -12,7 +12,23 @@ def write_and_load(case: Dict[str, Any], d: str, include_last: bool = False, **k
     from hta.trace_analysis import TraceAnalysis
     ranks = [gen.RankTrace(**r) for r in case["ranks"]]
     gen.write_trace_set(ranks, d)
-    return TraceAnalysis(trace_dir=d, include_last_profiler_step=include_last, **kw)
+    ta = TraceAnalysis(trace_dir=d, include_last_profiler_step=include_last, **kw)
+    if case.get("prefix"):
+        # a behaviour of spec/Session.tla: public calls made on the object before the call under test (results and errors ignored)
+        from .. import session
+        session.apply(ta, case["prefix"], d)
+    return ta
+
+
+PREFIX_OPS = ["temporal_breakdown", "comm_comp_overlap", "kernel_breakdown", "idle_breakdown", "queue_length", "memory_bw", "launch_stats_mem",
+              "launch_stats_nomem", "with_counters", "decode_names", "call_graph", "kernel_sequences", "user_annotations", "critical_path"]
+
+
+def draw_prefix(rng: random.Random, p: float = 0.3) -> List[str]:
+    """With probability p a history of 1-3 earlier calls on the same TraceAnalysis object (never the re-parsing one, finding S1)."""
+    if rng.random() >= p:
+        return []
+    return [rng.choice(PREFIX_OPS) for _ in range(rng.randint(1, 3))]
 
 
 def case_from_cfg(rng: random.Random, cfg: gen.GenCfg) -> Dict[str, Any]:
